@@ -53,6 +53,9 @@ type Contract struct {
 	Atomics  map[string]*AtomicSpec // "Type.field" -> rely/guarantee
 	Inventory []InventorySpec
 	AllowedCalls *AllowedCalls
+	// AbstractCalls: callees (pkg-qualified keys as in allowed-calls) that this proof treats
+	// as uninterpreted deterministic functions of their value arguments
+	AbstractCalls []string
 }
 
 // AllowedCalls: the complete list of callees the function body may call.
@@ -102,7 +105,7 @@ type ContractSet struct {
 var clauseKeywords = map[string]bool{
 	"func": true, "requires": true, "ensures": true, "assigns": true, "loop": true,
 	"safety": true, "mode": true, "strings": true, "trusted": true, "pure": true, "inline": true,
-	"spec": true, "lemma": true, "at-call": true, "unroll": true, "atomic": true, "inventory": true, "allowed-calls": true,
+	"spec": true, "lemma": true, "at-call": true, "unroll": true, "atomic": true, "inventory": true, "allowed-calls": true, "abstract-calls": true,
 }
 
 var tagRe = regexp.MustCompile(`^\[(C[0-9]+\.[A-Za-z0-9_.-]+)\]\s*`)
@@ -203,7 +206,17 @@ func (cs *ContractSet) loadContractFile(path, pkgPath string) error {
 				}
 			}
 			if eq < 0 {
-				return fmt.Errorf("%s:%d: spec without body", path, st.line)
+				// `spec f(a T) R` without a body: an uninterpreted (ghost) function - the same
+				// unknown function of its arguments wherever it is used
+				name, params, ret, err := parseSig(strings.TrimSpace(rest))
+				if err != nil {
+					return fmt.Errorf("%s:%d: %v", path, st.line, err)
+				}
+				if ret == "" {
+					return fmt.Errorf("%s:%d: uninterpreted spec needs a result type", path, st.line)
+				}
+				cs.Specs[pkgPath+"."+name] = &SpecFunc{Name: name, Pkg: pkgPath, Params: params, Ret: ret, Src: rest, Line: st.line, File: path}
+				continue
 			}
 			name, params, ret, err := parseSig(strings.TrimSpace(rest[:eq]))
 			if err != nil {
@@ -317,6 +330,10 @@ func (cs *ContractSet) loadContractFile(path, pkgPath string) error {
 					cur.Atomics = map[string]*AtomicSpec{}
 				}
 				cur.Atomics[field] = &AtomicSpec{Field: field, Rely: rc, Guarantee: gc}
+			case "abstract-calls":
+				for _, w := range splitTop(rest, ',') {
+					cur.AbstractCalls = append(cur.AbstractCalls, strings.TrimSpace(w))
+				}
 			case "allowed-calls":
 				// allowed-calls [tag] f1, f2, ...: the function body calls nothing else
 				r2 := rest
